@@ -176,7 +176,44 @@ def unit_gen_cache(clsname):
                 ctx.holds("%s: after a call with (%s molecule, %s grids object, %s spin count) following a call with nspin=%d, every generator is the one for the current molecule / grid / spin count"
                           % (clsname, "the same" if same_mol else "another", "the same" if same_grids else "another", "the same" if same_spin else "another", nsp0),
                           not bad, "; ".join(bad), fq, replay=replay_gen_cache(clsname, (same_mol, same_grids, same_spin, nsp0)))
+        # reset / build: the way to invalidate the caches when a molecule is changed IN PLACE (mol.set_geom_ on the same object, as scanners do; identity-based
+        # staleness tests cannot see that): afterwards no generator of the earlier geometry survives, whichever molecule object is handed in
+        fqr = ["%s:CiderNumIntMixin.reset" % NMOD, "%s:CiderNumIntMixin.build" % NMOD]
+        it.externals["ase.utils.timing.Timer"] = lambda interp, *a, **k: "timer"
+        for meth in ("reset", "build"):
+            for which in ("the same molecule object", "another molecule object", "no molecule"):
+                ni = fresh_ni()
+                m0, g0 = mkobj(mod, "_Mol"), mkobj(mod, "_Grids")
+                call(ni, m0, g0, 1)
+                arg = {"the same molecule object": m0, "another molecule object": mkobj(mod, "_Mol"), "no molecule": None}[which]
+                try:
+                    it.call_method(ni, meth, [], {"mol": arg})
+                except (Unsupported, PyRaise) as e:
+                    ctx.undecided("%s.%s(%s) runs" % (clsname, meth, which), str(e)[:160], fqr)
+                    continue
+                left = [k for k in ("nldfgen", "sdmxgen") if ni.fields.get(k) is not None]
+                ctx.holds("%s.%s(%s) drops every cached feature generator" % (clsname, meth, which), not left, "still cached: %s" % left, fqr,
+                          witness={"method": meth, "argument": which}, replay=replay_reset(clsname, meth, which))
     return run
+
+
+def replay_reset(clsname, meth, which):
+    def replay(wit):
+        from pyvc import native
+        native.install_shim()
+        import ciderpress.pyscf.numint as N
+        cls = getattr(N, clsname)
+        ni = cls.__new__(cls)
+        m0 = object()
+        ni.mol, ni.nldfgen, ni.sdmxgen, ni.sl_plan, ni.fl_plan = m0, "NLDFGEN", "SDMXGEN", None, None
+        arg = {"the same molecule object": m0, "another molecule object": object(), "no molecule": None}[which]
+        try:
+            getattr(ni, meth)(mol=arg)
+        except Exception as e:
+            return {"reproduced": None, "error": "%s: %s" % (type(e).__name__, str(e)[:100])}
+        left = [k for k in ("nldfgen", "sdmxgen") if getattr(ni, k, None) is not None]
+        return {"reproduced": bool(left), "still_cached": left}
+    return replay
 
 
 def replay_gen_cache(clsname, scenario=None):
